@@ -28,9 +28,9 @@ ASSUMPTIONS = [
 ]
 SHARDS = {"quick": 4, "thorough": 16}
 MIN_REACH = {
-    "contract_evals_rs_update": {"quick": 100000, "thorough": 2000000},
+    "contract_evals_rs_update": {"quick": 100000, "thorough": 3000000},
     "contract_evals_rc_update": {"quick": 30000, "thorough": 500000},
-    "estimate_runs": {"quick": 300, "thorough": 5000},
+    "estimate_runs": {"quick": 300, "thorough": 10000},
     "ill_conditioned_samples": {"quick": 100, "thorough": 2000},
 }
 TIME_BUDGET = {"quick": 300, "thorough": 3000}
@@ -40,18 +40,18 @@ DISTS = ["gauss", "uniform", "constant", "twopoint", "cauchyish", "sorted", "alt
 
 def cases(ctx):
     rng = ctx.rng("cases")
-    for i in range(ctx.pick(900, 12000)):
+    for i in range(ctx.pick(900, 30000)):
         n = rng.choice([1, 2, 3, 5, rng.randint(1, 40), rng.randint(1, 500), rng.randint(100, 500)])
         yield {"type": "rs", "n": n, "offset": rng.choice([0.0, 1.0, -3.5, 1e3, -1e6, 1e9, -1e9, 10 ** rng.uniform(-6, 9)]),
                "spread": rng.choice([1.0, 1e-3, 1e3, 10 ** rng.uniform(-3, 6)]), "dist": rng.choice(DISTS),
                "sseed": rng.randint(0, 10 ** 9), "feed": rng.choice(["single", "chunks", "one_chunk", "mixed"]),
                "permute": rng.random() < 0.5}
-    for i in range(ctx.pick(200, 3500)):
+    for i in range(ctx.pick(200, 6000)):
         yield {"type": rng.choice(["cov", "covmat", "covmat"]), "n": rng.randint(1, 300), "k": rng.randint(2, 4),
                "offset": rng.choice([0.0, 1e3, 1e9, -1e8]), "spread": rng.choice([1.0, 1e-3, 50.0]),
                "rho": rng.choice([0.0, 0.5, -0.9, 0.999, 1.0]), "sseed": rng.randint(0, 10 ** 9),
                "feed": rng.choice(["single", "chunks"])}
-    for i in range(ctx.pick(400, 6000)):
+    for i in range(ctx.pick(400, 12000)):
         yield {"type": "est", "gen": rng.choice(["constant", "alternating", "noisy", "noisy", "drift", "zero_mean", "big_offset"]),
                "rtol": rng.choice([0.5, 0.1, 0.02, 1e-3, 1e-6, 0.0]), "tol_scale": rng.choice([1.0, 1e-3, 100.0, 0.0]),
                "min_samples": rng.choice([0, 1, 2, 5, 17]), "max_samples": rng.choice([1, 2, 3, 7, 50, 400]),
